@@ -39,3 +39,18 @@ Example mp_bound_dominates_closed (draw : oracle) (budget : nat) (stop : R -> bo
       (strats, Some (b1, b2), ran) /\
     @si_regret RNum (@info RNum SolveValidProofs.mp_game strats) <= Rmax b1 b2 /\ 0 <= b1 /\ 0 <= b2.
 Proof. exact (mp_bound_dominates br_upper br_attained draw budget stop). Qed.
+
+(** the factor 2 in [cum_regret_bound] cannot be dropped *)
+Theorem halved_bound_refuted_closed (draw : oracle) :
+  exists (g : game) budget stop strats b1 b2 ran,
+    @WFgame RNum g /\ @PerfectRecall RNum g /\ ChanceOK g /\
+    @solve_single RNum g Full draw (@p_vanilla RNum) budget stop = (strats, Some (b1, b2), ran) /\
+    Rmax b1 b2 / 2 < @si_regret RNum (@info RNum g strats) /\
+    @si_regret RNum (@info RNum g strats) <= Rmax b1 b2.
+Proof.
+  destruct (halved_bound_refuted br_upper draw) as (strats & b1 & b2 & ran & E & Hlt).
+  exists g2, 2%nat, LoopProofs.never, strats, b1, b2, ran.
+  split; [exact g2_WFgame|]. split; [exact g2_PerfectRecall|]. split; [exact g2_ChanceOK|].
+  split; [exact E|]. split; [exact Hlt|].
+  exact (proj1 (bound_dominates_closed g2 draw 2 _ strats b1 b2 ran g2_WFgame g2_PerfectRecall g2_ChanceOK E)).
+Qed.
